@@ -14,7 +14,6 @@ INVARIANT Inv_SpAlignedOnAccess
 INVARIANT Inv_RestoredDeclared
 INVARIANT Inv_NoCollateral
 INVARIANT Inv_FlagsRestoredIfDeclared
-INVARIANT Inv_FlagsUntouchedIfNotDeclared
 INVARIANT Inv_SpRestored
 INVARIANT Inv_ReportedAdjustment
 INVARIANT Inv_AlignedIfAlignStack
